@@ -54,7 +54,11 @@
 //! declared ([k1 DESC]); SortPreservingMerge + the ordered Final above then emit a group twice
 //! (64 rows for 63 groups).
 //! Genuine finding 3 (thorough tier; open entry `legacy-stream:list-key:spill`, case
-//! /verif/regressions/C06/c06/legacy-list-key-spill.json, no repair yet — root cause not isolated):
+//! /verif/regressions/C06/c06/legacy-list-key-spill.json, proposed repair
+//! /verif/fixes/C06-legacy-merge-recreates-single-column-group-values.diff — the stored case passes
+//! with it under mutrun; cause: `set_input_done_and_produce_output` recreates `group_values` for
+//! the ordered spill merge only for > 1 group columns, but a single nested / dictionary key is
+//! served by the same vectorized collector, whose ids are not first-seen ordered):
 //! with `enable_migration_aggregate=false`, a List<Int32> group key and a memory limit that makes
 //! the Final stage spill (10.5–12 kB in the stored case; no spill above, exhaustion below) the
 //! group [NULL] is returned twice (12 rows for 11 groups); the migrated streams are correct.
